@@ -133,8 +133,18 @@ def rankLe (a b : Ep α) : Bool := keyLe (rankKey a) (rankKey b)
 
 def passes (θ : α) (e : Ep α) : Bool := e.hasVec && Num.le θ e.cos
 
+/-- `_rank_by_cosine` after the sort: one entry per episode id (its best-ranked copy), in order
+(`seen_ids` / `unique`).  Same function as `Clem.ParT2.dedupAux` (there on the fan-out's `Hit`). -/
+def dedupIdsAux : List Str → List (Ep α) → List (Ep α)
+  | _, [] => []
+  | seen, h :: t =>
+    if seen.contains h.id then dedupIdsAux seen t else h :: dedupIdsAux (h.id :: seen) t
+
+def dedupIds (l : List (Ep α)) : List (Ep α) := dedupIdsAux [] l
+
+/-- `_rank_by_cosine`: filter `s ≥ θ`, sort by `(−s, id)`, keep the first copy of every id, cut to `k`. -/
 def rankByCosine (k : Int) (θ : α) (eps : List (Ep α)) : List (Ep α) :=
-  pySlice k (isort rankLe (eps.filter (passes θ)))
+  pySlice k (dedupIds (isort rankLe (eps.filter (passes θ))))
 
 /-! ### Cluster tier -/
 
